@@ -1,5 +1,6 @@
 import ScyllaVerif.Model.Util
 import ScyllaVerif.Model.Prepared
+import ScyllaVerif.Drive.C14Session
 /-! Line-protocol driver for C14.
 
 Case: `hist <nodes> <stmts> <steps>`
@@ -236,8 +237,10 @@ def endDump (st : State) (nStmts : Nat) : String :=
     | none => s!"q{s}=none"
     | some o => s!"q{s}={showCols (st.objs o).cur.cols}"))
 
-def run (case _impl : String) : String :=
+def run (case impl : String) : String :=
   match words case with
+  | "pb" :: _ => ScyllaVerif.Drive.C14Session.run case impl
+  | "cs" :: _ => ScyllaVerif.Drive.C14Session.run case impl
   | ["hist", nodes, stmts, steps] =>
     match (stmts.splitOn ",").mapM parseStmt with
     | none => "bad-case"
